@@ -25,7 +25,22 @@ class TLCResult(dict):
 def run(module, cfg=None, workers=None, env=None, timeout=900,
         coverage=False, simulate=None, depth=None, seed=None, extra=(),
         jvm=(), deadlock=None, spec_dir=None):
-    """Run TLC on spec/<module>.tla with spec/<cfg>.cfg."""
+    """Run TLC on spec/<module>.tla with spec/<cfg>.cfg.  A run that dies
+    without a verdict (JVM could not start / was killed: memory pressure when
+    many checks run at once) is repeated once."""
+    res = _run(module, cfg, workers, env, timeout, coverage, simulate, depth,
+               seed, extra, jvm, deadlock, spec_dir)
+    if not res.ok and not res.violation and not res.timed_out and \
+            'Parsing or semantic analysis failed' not in res.out and \
+            'is equal to FALSE' not in res.out:
+        time.sleep(5)
+        res = _run(module, cfg, workers, env, timeout, coverage, simulate,
+                   depth, seed, extra, jvm, deadlock, spec_dir)
+    return res
+
+
+def _run(module, cfg, workers, env, timeout, coverage, simulate, depth, seed,
+         extra, jvm, deadlock, spec_dir):
     spec_dir = spec_dir or SPEC_DIR
     meta = tempfile.mkdtemp(prefix='verif-tlc-')
     cmd = ['java', '-XX:+UseParallelGC', '-Xmx6g'] + list(jvm) + [
